@@ -170,8 +170,33 @@ def need_ok(res, what=""):
         raise common.MachineryError(f"TLC failed on {res.label} {what}:\n{res.out[-3000:]}")
 
 
+TLAPS_LIB = "/opt/veriftools/tlapm/lib/tlapm/stdlib"
+
+
+def tlaps(module, timeout=1800):
+    """Check the proofs of spec/<module>.tla with tlapm in a scratch copy of spec/ (tlapm writes a cache next to the
+    module).  Returns (number of obligations, all proved?, output tail)."""
+    import shutil
+    d = common.scratch("tlaps-")
+    try:
+        for f in os.listdir(common.SPEC):
+            if f.endswith(".tla"):
+                shutil.copy(os.path.join(common.SPEC, f), d)
+        try:
+            p = subprocess.run(["tlapm", "--toolbox", "0", "0", module + ".tla"], cwd=d, capture_output=True, text=True,
+                               timeout=timeout)
+        except subprocess.TimeoutExpired:
+            raise common.MachineryError(f"tlapm timeout after {timeout}s on {module}")
+        out = p.stdout + p.stderr
+        m = re.search(r"All (\d+) obligations? proved", out)
+        failed = len(re.findall(r"@!!status:failed", out))
+        return (int(m.group(1)) if m else 0), bool(m) and p.returncode == 0 and failed == 0, out[-3000:]
+    finally:
+        common.rm(d)
+
+
 def sany(module_path):
-    p = subprocess.run(["java", "-cp", JAR, "tla2sany.SANY", module_path], capture_output=True,
+    p = subprocess.run(["java", f"-DTLA-Library={TLAPS_LIB}", "-cp", JAR, "tla2sany.SANY", module_path], capture_output=True,
                        text=True, cwd=os.path.dirname(module_path))
     ok = p.returncode == 0 and "Semantic errors" not in p.stdout and "***Parse Error***" not in p.stdout \
         and "Fatal errors" not in p.stdout
